@@ -217,3 +217,169 @@ Qed.
 Example C17_cov_instance :
   exists C, cov ROps 2 [[1; 2]; [3; 1]; [2; 6]] = Some C /\ (2 <= length [[1; 2]; [3; 1]; [2; 6]])%nat.
 Proof. eexists. split; [reflexivity | cbn; lia]. Qed.
+
+(* ======================================================================================================
+   Rounding: the binary64 instance (FOps, Coq primitive floats) of the SAME model definitions — the
+   ones the correspondence check executes bit for bit against the Rust code — is within a stated
+   number of roundings of the exact value.  Proved through Flocq's primitive-float bridge
+   (SC.Base.FloatError, SC.C17.ProofsFloat); extra assumptions: the FloatAxioms / Uint63 specification
+   axioms of Coq's standard library that give primitive floats and integers their meaning.
+   Vocabulary (SC.Base.FloatError): `FR d` = the real value of the float d;  `RV x` = map FR x;
+   u64 = 2^-53 (unit roundoff), eta64 = 2^-1075 (half the smallest subnormal), `rnd64 r` = r rounded to
+   nearest-even binary64.  The only no-overflow hypothesis is `is_finite d = true` for the RESULT d:
+   infinities and NaN are absorbing, so finite result => all inputs and intermediates finite.
+   ====================================================================================================== *)
+From Coq Require Import Floats.
+From SC Require Import Base.FloatUtil Base.FloatError C17.ProofsFloat.
+
+(* what the constants and the value function are *)
+Theorem C17_float_constants :
+  u64 = / 2 ^ 53 /\ eta64 = / 2 ^ 1075 /\ FR 0%float = 0 /\
+  (forall z, (0 <= z < 2 ^ 53)%Z -> FR (float_of_Z z) = IZR z) /\
+  (forall x, FR (PrimFloat.abs x) = Rabs (FR x)).
+Proof.
+  split; [exact u64_eq|]. split; [exact eta64_eq|]. split; [exact FR_zero|].
+  split; [exact FR_int | exact fabs_exact].
+Qed.
+
+(* one operation: finite result => finite operands and the result is the correctly rounded exact
+   result; + and - have relative error u64 even in the subnormal range, * has relative error u64 plus
+   the underflow term eta64, sqrt has relative error u64 *)
+Theorem C17_float_operation_errors : forall x y : PrimFloat.float,
+  (PrimFloat.is_finite (x + y)%float = true ->
+     PrimFloat.is_finite x = true /\ PrimFloat.is_finite y = true /\
+     FR (x + y)%float = rnd64 (FR x + FR y) /\
+     Rabs (FR (x + y)%float - (FR x + FR y)) <= u64 * Rabs (FR x + FR y)) /\
+  (PrimFloat.is_finite (x - y)%float = true ->
+     PrimFloat.is_finite x = true /\ PrimFloat.is_finite y = true /\
+     FR (x - y)%float = rnd64 (FR x - FR y) /\
+     Rabs (FR (x - y)%float - (FR x - FR y)) <= u64 * Rabs (FR x - FR y)) /\
+  (PrimFloat.is_finite (x * y)%float = true ->
+     PrimFloat.is_finite x = true /\ PrimFloat.is_finite y = true /\
+     FR (x * y)%float = rnd64 (FR x * FR y) /\
+     Rabs (FR (x * y)%float - FR x * FR y) <= u64 * Rabs (FR x * FR y) + eta64) /\
+  (PrimFloat.is_finite (PrimFloat.sqrt x) = true ->
+     PrimFloat.is_finite x = true /\ 0 <= FR x /\
+     FR (PrimFloat.sqrt x) = rnd64 (R_sqrt.sqrt (FR x)) /\
+     Rabs (FR (PrimFloat.sqrt x) - R_sqrt.sqrt (FR x)) <= u64 * R_sqrt.sqrt (FR x)).
+Proof.
+  intros x y. split; [|split; [|split]].
+  - intros H. destruct (fadd_finite x y H) as (A & B & C). repeat split; auto. apply fadd_error, H.
+  - intros H. destruct (fsub_finite x y H) as (A & B & C). repeat split; auto. apply fsub_error, H.
+  - intros H. destruct (fmul_finite x y H) as (A & B & C). repeat split; auto. apply fmul_error, H.
+  - intros H. destruct (fsqrt_finite x H) as (A & B). destruct (fsqrt_error x H) as (C & D).
+    repeat split; auto.
+Qed.
+
+(* recursive summation s_0 = 0, s_{i+1} = fl(s_i + t_i) of non-negative binary64 numbers, as every
+   left fold of the models runs it: relative error (1+u)^(n-1) - 1 (the first addition is exact) *)
+Theorem C17_float_recursive_sum_error : forall l : list PrimFloat.float,
+  Forall (fun t => 0 <= FR t) l ->
+  PrimFloat.is_finite (fold_left PrimFloat.add l 0%float) = true ->
+  let s := FR (fold_left PrimFloat.add l 0%float) in
+  let S := fold_right Rplus 0 (map FR l) in
+  Forall (fun t => PrimFloat.is_finite t = true) l /\
+  0 <= s /\ Rabs (s - S) <= ((1 + u64) ^ (length l - 1) - 1) * S.
+Proof.
+  intros l Hl Hfin. cbv zeta. split.
+  - exact (proj2 (fold_fadd_finite_acc l _ Hfin)).
+  - exact (fsum_nonneg_error l Hl Hfin).
+Qed.
+
+(* Manhattan: n subtractions, n-1 inexact additions => relative error (1+u)^n - 1 *)
+Theorem C17_manhattan_float_error : forall (x y : list PrimFloat.float) (d : PrimFloat.float),
+  manhattan FOps x y = Some d -> PrimFloat.is_finite d = true ->
+  let D := sigma (length x) (fun i => Rabs (comp (RV x) i - comp (RV y) i)) in
+  manhattan ROps (RV x) (RV y) = Some D /\ 0 <= D /\ 0 <= FR d /\
+  Rabs (FR d - D) <= ((1 + u64) ^ length x - 1) * D.
+Proof. exact manhattan_float_error. Qed.
+
+(* squared Euclidian: relative error (1+u)^(n+2) - 1 plus n underflow terms; without the underflow
+   terms when every coordinate difference is zero or at least 2^-510 in magnitude *)
+Theorem C17_squared_euclidean_float_error : forall (x y : list PrimFloat.float) (d : PrimFloat.float),
+  squared_distance FOps x y = Some d -> PrimFloat.is_finite d = true ->
+  let n := length x in
+  let D := sigma n (fun i => (comp (RV x) i - comp (RV y) i) * (comp (RV x) i - comp (RV y) i)) in
+  squared_distance ROps (RV x) (RV y) = Some D /\ 0 <= D /\ 0 <= FR d /\
+  Rabs (FR d - D) <= ((1 + u64) ^ (n + 2) - 1) * (D + INR n * eta64) + INR n * eta64 /\
+  ((forall a b, In (a, b) (combine x y) -> FR a = FR b \/ / 2 ^ 510 <= Rabs (FR a - FR b)) ->
+   Rabs (FR d - D) <= ((1 + u64) ^ (n + 2) - 1) * D).
+Proof.
+  intros x y d H Hfin n D.
+  destruct (squared_distance_float_error x y d H Hfin) as (A & B & C & E & F).
+  repeat split; auto. intros Hno. apply F, diff_normal_intro, Hno.
+Qed.
+
+(* Euclidian: one more rounding (the square root never under- or overflows) *)
+Theorem C17_euclidean_float_error : forall (x y : list PrimFloat.float) (r : PrimFloat.float),
+  euclidian FOps x y = Some r -> PrimFloat.is_finite r = true ->
+  (forall a b, In (a, b) (combine x y) -> FR a = FR b \/ / 2 ^ 510 <= Rabs (FR a - FR b)) ->
+  let D := sigma (length x) (fun i => (comp (RV x) i - comp (RV y) i) * (comp (RV x) i - comp (RV y) i)) in
+  euclidian ROps (RV x) (RV y) = Some (R_sqrt.sqrt D) /\ 0 <= FR r /\
+  Rabs (FR r - R_sqrt.sqrt D) <= ((1 + u64) ^ (length x + 3) - 1) * R_sqrt.sqrt D.
+Proof.
+  intros x y r H Hfin Hno. apply (euclidian_float_error x y r H Hfin). apply diff_normal_intro, Hno.
+Qed.
+
+(* Hamming (any element type): the count is exact, both conversions are exact, the result is the
+   correctly rounded quotient — one rounding; 0 when no position differs *)
+Theorem C17_hamming_float_exact : forall (A : Type) (neqb : A -> A -> bool) (x y : list A) (d : PrimFloat.float),
+  hamming FOps neqb x y = Some d -> (0 < length x)%nat -> (Z.of_nat (length x) < 2 ^ 53)%Z ->
+  let q := INR (diff_count neqb x y) / INR (length x) in
+  hamming ROps neqb x y = Some q /\ PrimFloat.is_finite d = true /\ FR d = rnd64 q /\
+  Rabs (FR d - q) <= u64 * q /\ (diff_count neqb x y = 0%nat -> FR d = 0).
+Proof. exact @hamming_float_error. Qed.
+
+(* ---------------- the hypotheses are satisfiable ---------------- *)
+(* exact arithmetic *)
+Example C17_manhattan_float_instance :
+  manhattan FOps [1; 2.5; -3]%float [0.5; 4; 1]%float = Some 6%float /\ PrimFloat.is_finite 6%float = true.
+Proof. split; vm_compute; reflexivity. Qed.
+(* inputs 0.1, 0.2, 0.3 / 0.3, 0.1, 0.7 (nearest binary64 numbers): every operation rounds *)
+Example C17_manhattan_float_instance_inexact :
+  exists d, manhattan FOps [0x1.999999999999ap-4; 0x1.999999999999ap-3; 0x1.3333333333333p-2]%float
+                           [0x1.3333333333333p-2; 0x1.999999999999ap-4; 0x1.6666666666666p-1]%float = Some d /\
+            PrimFloat.is_finite d = true.
+Proof. eexists. split; vm_compute; reflexivity. Qed.
+Example C17_euclid_float_instance :
+  euclidian FOps [1; 2; 3]%float [4; 6; 3]%float = Some 5%float /\ PrimFloat.is_finite 5%float = true /\
+  (forall a b, In (a, b) (combine [1; 2; 3]%float [4; 6; 3]%float) ->
+     FR a = FR b \/ / 2 ^ 510 <= Rabs (FR a - FR b)).
+Proof.
+  split; [vm_compute; reflexivity|]. split; [vm_compute; reflexivity|].
+  assert (Hsmall : / 2 ^ 510 <= 1).
+  { assert (1 <= 2 ^ 510) by (apply pow_R1_Rle; lra).
+    apply (Rmult_le_reg_r (2 ^ 510)); [lra|]. rewrite Rinv_l by lra. lra. }
+  intros a b [E|[E|[E|[]]]]; injection E as <- <-.
+  - right. change 1%float with (float_of_Z 1). change 4%float with (float_of_Z 4).
+    rewrite !FR_int by lia. rewrite Rabs_left; lra.
+  - right. change 2%float with (float_of_Z 2). change 6%float with (float_of_Z 6).
+    rewrite !FR_int by lia. rewrite Rabs_left; lra.
+  - left. reflexivity.
+Qed.
+Example C17_hamming_float_instance :
+  hamming FOps (fun a b => negb (Nat.eqb a b)) [1; 0; 0; 1]%nat [1; 1; 0; 0]%nat = Some 0.5%float /\
+  (0 < length [1; 0; 0; 1]%nat)%nat /\ (Z.of_nat (length [1; 0; 0; 1]%nat) < 2 ^ 53)%Z.
+Proof. split; [vm_compute; reflexivity|]. split; [cbn; lia | vm_compute; reflexivity]. Qed.
+(* what the hypotheses exclude: overflow of a square (the result is not finite) and underflow of a
+   square (a non-zero difference below 2^-510: the computed distance is 0) *)
+Example C17_euclid_float_overflow_and_underflow :
+  euclidian FOps [0x1p600]%float [0]%float = Some infinity /\ PrimFloat.is_finite infinity = false /\
+  euclidian FOps [0x1p-600]%float [0]%float = Some 0%float.
+Proof. repeat split; vm_compute; reflexivity. Qed.
+
+(* the same with the no-underflow hypothesis in DECIDABLE form (evaluate `diff_normal_b x y` with
+   vm_compute): every computed |x_i - y_i| is 0 or at least 2^-509 *)
+Theorem C17_euclidean_float_error_checked : forall (x y : list PrimFloat.float) (r : PrimFloat.float),
+  euclidian FOps x y = Some r -> PrimFloat.is_finite r = true -> diff_normal_b x y = true ->
+  let D := sigma (length x) (fun i => (comp (RV x) i - comp (RV y) i) * (comp (RV x) i - comp (RV y) i)) in
+  euclidian ROps (RV x) (RV y) = Some (R_sqrt.sqrt D) /\ 0 <= FR r /\
+  Rabs (FR r - R_sqrt.sqrt D) <= ((1 + u64) ^ (length x + 3) - 1) * R_sqrt.sqrt D.
+Proof. exact euclidian_float_error_checked. Qed.
+
+(* inputs 0.1, 0.2, 0.3 / 0.3, 0.1, 0.7: every operation rounds; all three hypotheses by computation *)
+Example C17_euclid_float_instance_inexact :
+  let x := [0x1.999999999999ap-4; 0x1.999999999999ap-3; 0x1.3333333333333p-2]%float in
+  let y := [0x1.3333333333333p-2; 0x1.999999999999ap-4; 0x1.6666666666666p-1]%float in
+  exists r, euclidian FOps x y = Some r /\ PrimFloat.is_finite r = true /\ diff_normal_b x y = true.
+Proof. eexists. repeat split; vm_compute; reflexivity. Qed.
